@@ -501,7 +501,9 @@ func (in *c10Interp) eval(e *c10Ex, env *c10Env) *c10Val {
 			es = append(es, in.eval(a, env))
 		}
 		out := c10MkSet(es)
-		if len(out.E) != len(es) {
+		if len(out.E) != len(es) && e.Name != "dup" {
+			// what a set literal with repeated items denotes on its own is left open; as an operand of a
+			// union (Name "dup", generated only there) the union's value is defined: no duplicates
 			in.fail("set constructor with equal items: %s", e.render())
 		}
 		in.class("setof:%s", c10ElKind(out))
